@@ -859,20 +859,25 @@ def _buffer_type(fmt):
     return getattr(importlib.import_module(mod), attr)
 
 
-def _file_bytes(fmt, lines):
+def _file_bytes(fmt, lines, final_newline=True):
     ext, _, header, pool = FORMATS[fmt]
-    return (header + "".join(pool[i] + "\n" for i in lines)).encode()
+    data = (header + "".join(pool[i] + "\n" for i in lines)).encode()
+    return data if final_newline else data[:-1]
 
 
 class ChunkEnv:
     """one enumerated file: path, buffer type, baselines taken from FRESH chunks (one fresh read per observation)"""
 
-    def __init__(self, tmp, fmt, lines):
+    def __init__(self, tmp, fmt, lines, final_newline=True, with_modified=True):
         self.tmp, self.fmt, self.lines = tmp, fmt, list(lines)
+        # final_newline=False: the file ends without line terminator - the reader then appends one and the chunk holds
+        # the reader's own WRITABLE copy of the bytes (chunks of files that end with a newline are read-only)
+        self.final_newline = final_newline
+        self.sigfmt = fmt if final_newline else fmt + ":no-final-newline"
         self.ext = FORMATS[fmt][0]
         self.bt = _buffer_type(fmt)
-        self.data = _file_bytes(fmt, lines)
-        self.path = os.path.join(tmp, "in_%s_%s%s" % (fmt, "_".join(map(str, lines)), self.ext))
+        self.data = _file_bytes(fmt, lines, final_newline)
+        self.path = os.path.join(tmp, "in_%s_%s%s%s" % (fmt, "_".join(map(str, lines)), "" if final_newline else "_nonl", self.ext))
         with open(self.path, "wb") as f:
             f.write(self.data)
         self._n = 0
@@ -896,7 +901,7 @@ class ChunkEnv:
         self.V0 = {p: read_snap(self.fresh(), p) for p in self.paths}
         self.W0 = self.write(self.fresh())
         self.M0 = {}
-        for k in self.plain_top:
+        for k in (self.plain_top if with_modified else ()):
             if len(self.M0) >= 2:
                 break
             if self.V0[k][0] == "raises":
@@ -1047,8 +1052,10 @@ def eval_chunk(col, env, scenario):
     """scenario: list, first element is its kind"""
     fmt = env.fmt
     case = {"section": "chunk", "format": fmt, "lines": env.lines, "scenario": scenario}
+    if not env.final_newline:
+        case["final_newline"] = False
     kind = scenario[0]
-    sig = lambda what: "chunk:%s:%s" % (fmt, what)
+    sig = lambda what: "chunk:%s:%s" % (env.sigfmt, what)
     if kind in ("history", "history-chain"):
         # counted after the evaluation: a case whose second operation does not apply (it raised) is counted as trivial
         nontrivial = True
@@ -1171,7 +1178,8 @@ def _eval_chunk(col, env, scenario, case, sig):
         p, fname = scenario[1], scenario[2]
         v = read_field(B, p)
         fn = _value_functions(env, p, v)[fname]
-        _frame(col, "chunk:value-fn:" + fname.split("/")[0], ":field-of-lazy-chunk", case, fn, (v,), [v], tolerate_exception=True)
+        _frame(col, "chunk:value-fn:" + fname.split("/")[0], ":field-of-lazy-chunk" + ("" if env.final_newline else ":no-final-newline"),
+               case, fn, (v,), [v], tolerate_exception=True)
         _check_unchanged(col, env, B, p0, case, sig, "function-on-field-value")
         if env.lazy:
             got = read_snap(bnp.replace(B), p)
@@ -1689,10 +1697,449 @@ def run_chunks(col, tier, tmp):
 
 
 # ----------------------------------------------------------------------------------------------------------------
+# section "rawbuf": parsing fields of delimited buffers whose bytes the USER owns or that are WRITABLE
+#
+#   tables of 1..3 columns, one column kind (str, int, float, Optional[int], Optional[float], bool, List[int], List[float],
+#   List[bool], SequenceID, DNA) at every position of the line - as the ONLY column, last, first, in the middle, twice
+#   in a row - x 1..4 rows x the way the bytes reach the buffer:
+#     from_raw_buffer   DelimitedBuffer.from_raw_buffer on a user array: writable copy / read-only / writable with an
+#                       incomplete entry after the last line / a slice of a larger user array / CRLF line ends
+#     file              bnp.open(..).read() / .read_chunk() / .read_chunks(min_chunk_size=k) (small k: chunks concatenated
+#                       from several reads, several chunks per file) of a file WITH and WITHOUT final newline (without:
+#                       the reader appends one and works on its own writable copy)
+#   x short histories of field parses (every single field, all in file order, reversed, get_data, field after get_data,
+#   field of a row-slice of the buffer).
+#   Contracts (all before/after comparisons, no expected values):
+#     - the user array (and the larger array it is a slice of) holds the same bytes after every step
+#     - buffer.data holds the same bytes after every step
+#     - a field value does not depend on what was parsed before (against the parse on a fresh buffer over fresh bytes)
+#     - file: the chunk(s) write the same bytes after field access as untouched chunks do, and hold the same bytes
+# ----------------------------------------------------------------------------------------------------------------
+
+RAW_KINDS = {
+    # kind: (pool of field texts, pool for the table whose only column it is: no empty lines)
+    "str": (["a", "bb", "ccc", "x y"], None),
+    "int": (["-5", "+7", "12", "0"], None),
+    "float": (["-1.5", "2.5e-1", "10", "1e3"], None),
+    "Optional[int]": (["7", "", "-3", "12"], ["7", "-3", "12", "+4"]),
+    "Optional[float]": (["2.5", "", "-1e1", "3"], ["2.5", "-1e1", "3", "0.5"]),
+    "bool": (["1", "0", "1", "1"], None),
+    "List[int]": (["1,2,3", "40,50", "6", "7,8,9,10"], None),
+    "List[float]": (["1.5,-2e1", "0.25", "-1,2.5,1e2", "7"], None),
+    "List[bool]": (["101", "0", "11", "1"], None),
+    "SequenceID": (["id1", "id22", "x", "id1"], None),
+    "DNA": (["ACGT", "GG", "T", "ACGTA"], None),
+}
+RAW_LAYOUTS = ("only", "last", "first", "middle", "twice")
+RAW_SOURCES = ("writable", "readonly", "writable+tail", "slice-of-larger", "crlf")
+RAW_FILE_ENDINGS = ("no-final-newline", "final-newline")
+_RAW_CACHE = {}
+
+
+def _raw_type(kind):
+    from typing import List, Optional
+    import bionumpy as bnp
+    from bionumpy.typing import SequenceID
+    return {"str": str, "int": int, "float": float, "Optional[int]": Optional[int], "Optional[float]": Optional[float], "bool": bool,
+            "List[int]": List[int], "List[float]": List[float], "List[bool]": List[bool], "SequenceID": SequenceID,
+            "DNA": bnp.DNAEncoding}[kind]
+
+
+def _raw_layout(kind, layout):
+    """-> (column kinds, index of the column under test)"""
+    return {"only": ([kind], 0), "last": (["str", kind], 1), "first": ([kind, "str"], 0), "middle": (["int", kind, "float"], 1),
+            "twice": (["str", kind, kind], 2)}[layout]
+
+
+def _raw_buffer_classes(kinds):
+    """-> (column names, buffer type for bnp.open (header line = column names), the class the reader makes of it)"""
+    key = tuple(kinds)
+    if key not in _RAW_CACHE:
+        from bionumpy.bnpdataclass import make_dataclass
+        from bionumpy.io.delimited_buffers import get_bufferclass_for_datatype
+        names = ["c%d" % i for i in range(len(kinds))]
+        dc = make_dataclass([(n, _raw_type(k)) for n, k in zip(names, kinds)], "RawRow")
+        bt = get_bufferclass_for_datatype(dc, delimiter="\t", has_header=True)
+        _RAW_CACHE[key] = (names, bt, bt.modify_class_with_header_data(list(names)))
+    return _RAW_CACHE[key]
+
+
+def _raw_lines(kinds, n):
+    out = []
+    for r in range(n):
+        cells = []
+        for i, k in enumerate(kinds):
+            pool = RAW_KINDS[k][0] if (len(kinds) > 1 or RAW_KINDS[k][1] is None) else RAW_KINDS[k][1]
+            cells.append(pool[(r + i) % len(pool)])
+        out.append("\t".join(cells))
+    return out
+
+
+def _raw_build(kinds, n, source):
+    """-> (buffer, watched user arrays, the bytes they were made of)"""
+    import numpy as np
+    names, _, cls = _raw_buffer_classes(kinds)
+    lines = _raw_lines(kinds, n)
+    end = "\r\n" if source == "crlf" else "\n"
+    data = "".join(l + end for l in lines).encode()
+    if source in ("writable", "crlf"):
+        arr = np.frombuffer(data, dtype=np.uint8).copy()
+        watched = [arr]
+    elif source == "readonly":
+        arr = np.frombuffer(data, dtype=np.uint8)
+        watched = [arr]
+    elif source == "writable+tail":            # an incomplete entry after the last complete line
+        arr = np.frombuffer(data + lines[0].encode(), dtype=np.uint8).copy()
+        watched = [arr]
+    elif source == "slice-of-larger":
+        base = np.frombuffer(b"#\n" + data + lines[-1].encode() + b"\n", dtype=np.uint8).copy()
+        arr = base[2:2 + len(data)]
+        watched = [arr, base]
+    else:
+        raise KeyError(source)
+    originals = [_bytes_of(w) for w in watched]           # taken BEFORE the library sees the array
+    return cls.from_raw_buffer(arr), watched, originals
+
+
+def _raw_step(buf, kinds, step):
+    what = step[0]
+    if what == "field":
+        return buf.get_field_by_number(step[1], _raw_type(kinds[step[1]]))
+    if what == "data":
+        return buf.get_data()
+    if what == "slice-field":                  # rows of the buffer selected first (the selection is not contiguous)
+        return buf[::-1].get_field_by_number(step[1], _raw_type(kinds[step[1]]))
+    if what == "tail-field":
+        return buf[1:].get_field_by_number(step[1], _raw_type(kinds[step[1]]))
+    raise KeyError(what)
+
+
+def _raw_step_snap(buf, kinds, step):
+    try:
+        return ["value", snap(_raw_step(buf, kinds, step))]
+    except Exception as e:
+        return ["raises", type(e).__name__]
+
+
+_RAW_STEP_NAMES = {"field": "field-parse", "data": "get_data", "slice-field": "field-parse-of-a-row-selection",
+                   "tail-field": "field-parse-of-a-row-selection"}
+
+
+def _bytes_of(a):
+    import numpy as np
+    return bytes(np.asarray(a).tolist()).decode("latin1")
+
+
+def eval_rawbuf(col, case):
+    kinds, focus, n, source, scenario = case["kinds"], case["focus"], case["rows"], case["source"], case["scenario"]
+    try:
+        if source.startswith("file"):
+            nontrivial = _eval_rawfile(col, case)
+        else:
+            nontrivial = _eval_rawarray(col, case)
+    except Exception as e:
+        nontrivial = False
+        col.fail("rawbuf:%s:exception:%s:%s" % (source.split("/")[0], type(e).__name__, kinds[focus]), case, traceback.format_exc()[-600:])
+    col.case(case, nontrivial=nontrivial, contract="rawbuf:" + ("file" if source.startswith("file") else "from_raw_buffer"))
+
+
+_RAW_V0 = {}
+
+
+def _raw_v0(kinds, n, source, step):
+    key = json_key([kinds, n, source, step])
+    if key not in _RAW_V0:
+        buf = _raw_build(kinds, n, source)[0]
+        _RAW_V0[key] = _raw_step_snap(buf, kinds, step)
+    return _RAW_V0[key]
+
+
+def json_key(x):
+    import json
+    return json.dumps(x, sort_keys=True)
+
+
+def _eval_rawarray(col, case):
+    kinds, focus, n, source, scenario = case["kinds"], case["focus"], case["rows"], case["source"], case["scenario"]
+    buf, watched, w0 = _raw_build(kinds, n, source)
+    w1 = [_bytes_of(w) for w in watched]
+    if not col.check(w1 == w0, "rawbuf:from_raw_buffer:user-array-changed-by-from_raw_buffer:" + source, case,
+                     "array given to from_raw_buffer (%s), after the buffer was made: %s" % (source, first_diff(w0, w1))):
+        return True
+    d0 = _bytes_of(buf.data.raw())
+    nontrivial = True
+    for step in scenario:
+        kind = kinds[step[1]] if len(step) > 1 else kinds[focus]
+        name = _RAW_STEP_NAMES[step[0]]
+        got = _raw_step_snap(buf, kinds, step)
+        if got[0] == "raises":
+            nontrivial = False
+        w1 = [_bytes_of(w) for w in watched]
+        if col.check(w1 == w0, "rawbuf:from_raw_buffer:user-array-changed-by-%s:%s" % (name, kind), case,
+                     "array given to from_raw_buffer (%s) after %r: %s" % (source, step, first_diff(w0, w1))):
+            d1 = _bytes_of(buf.data.raw())     # (the buffer may hold its own copy of the bytes)
+            col.check(d1 == d0, "rawbuf:from_raw_buffer:buffer-data-changed-by-%s:%s" % (name, kind), case,
+                      "buffer.data after %r: %r -> %r" % (step, d0, d1))
+        v0 = _raw_v0(kinds, n, source, step)
+        col.check(got == v0, "rawbuf:from_raw_buffer:field-value-depends-on-access-history:%s" % kind, case,
+                  "%r after %r, on a fresh buffer over fresh bytes: %s" % (step, scenario, first_diff(v0, got)))
+    return nontrivial
+
+
+class RawFileEnv:
+    """one enumerated file of a custom delimited format (header line + rows), read in one of the three public ways"""
+
+    def __init__(self, tmp, kinds, n, source):
+        self.tmp, self.kinds, self.n = tmp, kinds, n
+        parts = source.split("/")          # "file/<ending>/<read | read_chunk | read_chunks>[/<min_chunk_size>]"
+        self.ending, self.how = parts[1], parts[2]
+        self.k = int(parts[3]) if len(parts) > 3 else None
+        self.names, self.bt, _ = _raw_buffer_classes(kinds)
+        text = "\t".join(self.names) + "\n" + "".join(l + "\n" for l in _raw_lines(kinds, n))
+        if self.ending == "no-final-newline":
+            text = text[:-1]
+        self.path = os.path.join(tmp, "raw_in.tsv")
+        with open(self.path, "wb") as f:
+            f.write(text.encode())
+        self._n = 0
+        self.W0 = self.write(self.fresh())
+        self.V0 = {}
+
+    def fresh(self):
+        """the list of chunks the file is read as"""
+        import bionumpy as bnp
+        with bnp.open(self.path, buffer_type=self.bt) as f:
+            if self.how == "read":
+                return [f.read()]
+            if self.how == "read_chunk":
+                return [f.read_chunk()]
+            return list(f.read_chunks(min_chunk_size=self.k))
+
+    def write(self, chunks):
+        import bionumpy as bnp
+        self._n += 1
+        out = os.path.join(self.tmp, "raw_out%d.tsv" % (self._n % 2))
+        with bnp.open(out, "w", buffer_type=self.bt) as o:
+            for c in chunks:
+                o.write(c)
+        with open(out, "rb") as f:
+            return f.read()
+
+    def v0(self, name):
+        if name not in self.V0:
+            self.V0[name] = [_rawfile_access(c, name) for c in self.fresh()]
+        return self.V0[name]
+
+
+def _rawfile_access(chunk, name):
+    try:
+        if name == "tolist()":
+            return ["value", snap(chunk.tolist())]
+        if name == "get_data_object()":
+            return ["value", snap(chunk.get_data_object())]
+        return ["value", snap(getattr(chunk, name))]
+    except Exception as e:
+        return ["raises", type(e).__name__]
+
+
+def _eval_rawfile(col, case, _envs={}):
+    kinds, focus, n, source, scenario = case["kinds"], case["focus"], case["rows"], case["source"], case["scenario"]
+    tmp = case_tmp()
+    key = (tmp, json_key([kinds, n, source]))
+    if key not in _envs:
+        _envs.clear()                      # the input file path is shared: one live environment at a time
+        _envs[key] = RawFileEnv(tmp, kinds, n, source)
+    env = _envs[key]
+    sig = lambda what, kind: "rawbuf:file:%s:%s:%s" % (env.ending, what, kind)
+    chunks = env.fresh()
+    lazy = all(hasattr(c, "_itemgetter") for c in chunks)
+    p0 = [chunk_private_state(c) for c in chunks] if lazy else None
+    nontrivial = len(chunks) > 0
+    accessed = [s for s in scenario]
+    kind = kinds[int(accessed[0][1:])] if (len(accessed) == 1 and accessed[0][0] == "c") else kinds[focus]
+    for name in accessed:
+        got = [_rawfile_access(c, name) for c in chunks]
+        if any(g[0] == "raises" for g in got):
+            nontrivial = False
+        v0 = env.v0(name)
+        col.check(got == v0, sig("field-value-depends-on-access-history", kind), case,
+                  "%s after %r, on freshly read chunks: %s" % (name, scenario, first_diff(v0, got)))
+    p1 = [chunk_private_state(c) for c in chunks] if lazy else None
+    W1 = env.write(chunks)
+    if col.check(W1 == env.W0, sig("written-bytes-changed-by-field-access", kind), case,
+                 "chunk(s) read by %s write %r after %r, untouched chunk(s) write %r" % (source, W1[-200:], scenario, env.W0[-200:])):
+        # (observation of the private state: changes that this write does not show, e.g. outside the written range)
+        col.check(p1 == p0, sig("buffer-changed-by-field-access", kind), case,
+                  "bytes/offsets held by the chunk(s) read by %s after %r: %s" % (source, scenario, first_diff(p0, p1)))
+    if len(scenario) > 1:                  # writing itself must not change what is written next
+        W2 = env.write(chunks)
+        col.check(W2 == env.W0, sig("written-bytes-changed-by-field-access", kind), case,
+                  "chunk(s) write %r the second time, untouched chunk(s) write %r" % (W2[-200:], env.W0[-200:]))
+    return nontrivial
+
+
+_CASE_TMP = [None]
+
+
+def case_tmp():
+    return _CASE_TMP[0]
+
+
+def _raw_scenarios(kinds, focus, n, level):
+    """level 2: everything / 1: short (quick tier, writable user array) / 0: two histories (quick tier, other sources)"""
+    m = len(kinds)
+    f = ["field", focus]
+    yield [f, f]
+    yield [["data"], f]
+    if level == 0:
+        return
+    if m > 1:
+        yield [["field", i] for i in range(m)]
+        yield [["field", i] for i in reversed(range(m))]
+    if n > 1:
+        yield [["slice-field", focus]]
+    if level == 1:
+        return
+    yield [f]
+    yield [["data"], ["data"]]
+    yield [f, ["data"]]
+    for i in range(m):
+        if i != focus:
+            yield [["field", i]]
+            yield [["field", i], f]
+    if n > 1:
+        yield [["tail-field", focus], f]
+
+
+def _rawfile_scenarios(kinds, focus, level):
+    m = len(kinds)
+    names = ["c%d" % i for i in range(m)]
+    if m > 1:
+        yield list(names)
+    if level == 0:
+        return
+    yield [names[focus]]
+    yield ["tolist()"]
+    if level == 1:
+        return
+    if m > 1:
+        yield list(reversed(names))
+    yield [names[focus], names[focus]]
+    yield ["get_data_object()", names[focus]]
+    for i in range(m):
+        if i != focus:
+            yield [names[i]]
+
+
+RAW_LIST_KINDS = ("List[int]", "List[float]", "List[bool]")
+
+
+def cases_rawbuf(tier):
+    """thorough: the whole product.  quick: per kind the table whose only column it is (1 and 3 rows; every source and way
+    of reading for 3 rows) and the table where it is the last column (2 rows); list-valued kinds at the other positions too"""
+    full = tier != "quick"
+
+    def case(kinds, focus, n, source, sc):
+        return {"section": "rawbuf", "kinds": kinds, "focus": focus, "rows": n, "source": source, "scenario": sc}
+
+    for kind in RAW_KINDS:
+        for layout in RAW_LAYOUTS:
+            kinds, focus = _raw_layout(kind, layout)
+            if full:
+                for n in (1, 2, 3, 4):
+                    for source in RAW_SOURCES:
+                        for sc in _raw_scenarios(kinds, focus, n, 2):
+                            yield case(kinds, focus, n, source, sc)
+                    width = len(_raw_lines(kinds, n)[0]) + 1
+                    for ending in RAW_FILE_ENDINGS:
+                        for how in ["read", "read_chunk"] + ["read_chunks/%d" % k for k in sorted({2, 3, 5, width, width + 1, 2 * width})]:
+                            for sc in _rawfile_scenarios(kinds, focus, 2):
+                                yield case(kinds, focus, n, "file/%s/%s" % (ending, how), sc)
+                continue
+            if layout == "only":
+                for sc in _raw_scenarios(kinds, focus, 1, 1):
+                    yield case(kinds, focus, 1, "writable", sc)
+                for source in RAW_SOURCES:
+                    for sc in _raw_scenarios(kinds, focus, 3, 1 if source == "writable" else 0):
+                        yield case(kinds, focus, 3, source, sc)
+                width = len(_raw_lines(kinds, 3)[0]) + 1
+                for source in ("file/no-final-newline/read", "file/no-final-newline/read_chunk", "file/no-final-newline/read_chunks/3",
+                               "file/no-final-newline/read_chunks/%d" % (width + 2), "file/final-newline/read_chunks/3"):
+                    for sc in _rawfile_scenarios(kinds, focus, 1):
+                        yield case(kinds, focus, 3, source, sc)
+            elif layout == "last" or kind in RAW_LIST_KINDS:
+                for sc in _raw_scenarios(kinds, focus, 2, 1):
+                    yield case(kinds, focus, 2, "writable", sc)
+                if layout == "last":
+                    for sc in _raw_scenarios(kinds, focus, 2, 0):
+                        yield case(kinds, focus, 2, "readonly", sc)
+                for sc in _rawfile_scenarios(kinds, focus, 0):
+                    yield case(kinds, focus, 2, "file/no-final-newline/read", sc)
+
+
+def run_rawbuf(col, tier, tmp, allowed_s):
+    import time
+    _CASE_TMP[0] = tmp
+    t0 = time.time()
+    for case in cases_rawbuf(tier):
+        eval_rawbuf(col, case)
+        if time.time() - t0 > allowed_s:
+            col.exhaustive = False
+            break
+
+
+def writable_chunk_scenarios(env, tier, full_file):
+    """scenarios for the chunk of a file WITHOUT final newline (writable bytes): those whose signatures carry the format"""
+    P = env.paths
+    quick = tier == "quick"
+    yield ["fields", list(P)] + (["no-modified-write"] if quick else [])
+    yield ["fields", list(reversed(P))] + (["no-modified-write"] if quick else [])
+    if not quick:
+        for p in P:
+            yield ["fields", [p], "no-modified-write"]
+        yield ["write-twice"]
+        yield ["slice", ["slice", 1, None, None]]
+        yield ["slice", ["slice", None, None, -1]]
+    if full_file:
+        c = env.fresh()
+        for p in P:
+            try:
+                v = read_field(c, p)
+            except Exception:
+                continue
+            for fname in _value_functions(env, p, v):
+                if not quick or fname not in GENERIC_TEXT_FUNCTIONS + ("ragged-sum", "ints_to_strings", "float_to_strings", "tolist", "equal"):
+                    yield ["value-fn", p, fname]
+
+
+def run_writable_chunks(col, tier, tmp, allowed_s):
+    """every format of FORMATS, file without final newline: whole pool of lines, first line only, (thorough) first two lines"""
+    import time
+    t0 = time.time()
+    for fmt in FORMATS:
+        n = len(FORMATS[fmt][3])
+        files = [list(range(n))] + ([[0]] + ([[0, 1]] if n > 2 else []) if tier != "quick" else [])
+        for lines in files:
+            case0 = {"section": "chunk", "format": fmt, "lines": lines, "scenario": ["baseline"], "final_newline": False}
+            try:
+                env = ChunkEnv(tmp, fmt, lines, final_newline=False, with_modified=tier != "quick")
+            except Exception:
+                col.case(case0, contract="chunk:baseline")
+                col.fail("chunk:%s:no-final-newline:cannot-read-or-write-a-fresh-chunk" % fmt, case0, traceback.format_exc()[-600:])
+                continue
+            for sc in writable_chunk_scenarios(env, tier, len(lines) == n):
+                eval_chunk(col, env, sc)
+            if time.time() - t0 > allowed_s:
+                col.exhaustive = False
+                return
+
+
+# ----------------------------------------------------------------------------------------------------------------
 # run / replay
 # ----------------------------------------------------------------------------------------------------------------
 
 SECTION_ORDER = ("text", "seq", "interval", "genomic", "table")
+NEW_ALLOWANCE = ((6.5, 3), (40, 18))       # seconds for (rawbuf, writable chunks of every format): quick, thorough
 # share of the wall budget after which a section is cut short (the chunk section gets what is left)
 QUICK_DEADLINES = {"text": 10, "seq": 20, "interval": 30, "genomic": 36, "table": 42}
 THOROUGH_DEADLINES = {"text": 90, "seq": 150, "interval": 230, "genomic": 260, "table": 290}
@@ -1744,6 +2191,12 @@ def run(tier="quick", seed=0):
                 col.exhaustive = False
                 break
     with TmpDir() as tmp:
+        # user-owned / writable buffers (added after the budget of the sections around them was fixed: they get their own
+        # time allowance, and the wall budget is extended by what they used so that the chunk section keeps its share)
+        t_new = time.time()
+        run_rawbuf(col, tier, tmp, NEW_ALLOWANCE[tier != "quick"][0])
+        run_writable_chunks(col, tier, tmp, NEW_ALLOWANCE[tier != "quick"][1])
+        col.budget_s += min(time.time() - t_new, sum(NEW_ALLOWANCE[tier != "quick"]) + 1)
         run_chunks(col, tier, tmp)
     if _UNKNOWN_TYPES:
         col.undecided.append("snapshot could not look into values of type(s) %s" % sorted(_UNKNOWN_TYPES))
@@ -1752,10 +2205,14 @@ def run(tier="quick", seed=0):
 
 def replay(case):
     col = Collector(PID, "quick", 0, "replay")
-    if case.get("section") == "chunk":
+    if case.get("section") == "rawbuf":
+        with TmpDir() as tmp:
+            _CASE_TMP[0] = tmp
+            eval_rawbuf(col, case)
+    elif case.get("section") == "chunk":
         with TmpDir() as tmp:
             try:
-                env = ChunkEnv(tmp, case["format"], case["lines"])
+                env = ChunkEnv(tmp, case["format"], case["lines"], final_newline=case.get("final_newline", True))
             except Exception:
                 return False, "cannot read or write a fresh chunk: " + traceback.format_exc()[-400:]
             if case["scenario"][0] != "baseline":
